@@ -557,11 +557,35 @@ fn class_len(l: BufLen) -> String {
     }
 }
 
+/// stable summary of a per-layer key state: what the top layer holds for the key
+/// and whether a value is visible below the top layer
+fn short_state(state: &str) -> String {
+    let chars: Vec<char> = state.chars().collect();
+    let (layers, base) = chars.split_at(chars.len() - 1);
+    let top = match layers.first() {
+        Some('i') => "pending_insert",
+        Some('r') => "pending_remove",
+        _ => "none",
+    };
+    let below = match layers.iter().skip(1).find(|c| **c != '-') {
+        Some('i') => "present",
+        Some(_) => "absent",
+        None => {
+            if base[0] == 'P' {
+                "present"
+            } else {
+                "absent"
+            }
+        }
+    };
+    format!("top={top} below={below}")
+}
+
 macro_rules! mismatch {
     ($op:expr, $what:expr, $state:expr, $($arg:tt)*) => {
         return Err(Viol {
-            sig: format!("{} {} [key_state={}]", $op.name(), $what, $state),
-            detail: format!($($arg)*),
+            sig: format!("{} {} [{}]", $op.name(), $what, short_state(&$state)),
+            detail: format!("key_state(top..base)={} {}", $state, format!($($arg)*)),
         })
     };
 }
@@ -791,7 +815,7 @@ fn sweep(kv: &dyn Kv, view: &dyn View, what: &str, ctx: &mut Ctx) -> Result<(), 
             };
             if g != exp || e != exp.is_some() || s != exp.as_ref().map(|v| v.len()) {
                 return Err(Viol {
-                    sig: format!("sweep after {what}: content differs from model [key_state={}]", view.state(&mkey)),
+                    sig: format!("sweep after {what}: content differs from model [{}]", short_state(&view.state(&mkey))),
                     detail: format!(
                         "after {what} at depth {}: key {kb:?} col {col:?}: expected {} observed get={} exists={e} size={s:?}",
                         ctx.depth,
